@@ -521,7 +521,7 @@ func runC11(ctx *common.Ctx) error {
 		}
 		ctx.Current(fmt.Sprintf("%s %s stream=%s", s.Name, pre, clip(s.Data, 300)), nil)
 		var o outcome
-		if withheldSeen >= 3 && strings.HasPrefix(s.Name, "lines:") {
+		if withheldSeen >= 3 && (strings.HasPrefix(s.Name, "lines:") || strings.HasPrefix(s.Name, "prefix-line:")) {
 			s.Lines = nil // enough evidence; do not spend 10 s per further random stream
 		}
 		if len(s.Lines) > 0 && len(s.NeedCont) > 0 {
@@ -1004,6 +1004,88 @@ func runC11(ctx *common.Ctx) error {
 		res.Nontrivial("memory long-lived connection")
 	}
 
+	// ---------------------------------------------------------------- 1g. segmented delivery: the input collector
+	// (a) the real InputCollector driven directly with partial reads (exact functional oracle + model cases)
+	nColl := ctx.Budget(60, 400)
+	for i := 0; i < nColl; i++ {
+		res.Evaluations++
+		res.Count("category:collector")
+		opsCoq, got, human, failTxt := driveCollector(rng)
+		if failTxt != "" {
+			res.Fail("COLLECTOR "+human, failTxt+": the collector does not hold exactly what was read (memory not bounded by the input)", nil)
+		}
+		if len(got) <= 4096 {
+			nextID++
+			lines = append(lines, fmt.Sprintf("mkColl %d %s %s", nextID, opsCoq, common.CoqHex(got)))
+		}
+		res.Nontrivial("collector " + human)
+	}
+	// (b) on the wire: a command whose literal arrives in k-byte TCP segments; the session's memory must stay bounded by
+	// the size of the command, not by size^2 / segment
+	for _, sg := range []struct{ seg, size int }{{1, 8 << 10}, {7, 32 << 10}, {1024, 256 << 10}} {
+		res.Evaluations++
+		res.Count("category:segmented")
+		canon := fmt.Sprintf("post-login g LOGIN {%d}CRLF<data> p sent in %d-byte segments", sg.size, sg.seg)
+		ctx.Current("SEGMENTED "+canon, nil)
+		conn, err := net.DialTimeout("tcp", c.addr, 10*time.Second)
+		if err != nil {
+			return err
+		}
+		rd := bufio.NewReaderSize(conn, 1<<16)
+		await := func(tag string) error {
+			conn.SetReadDeadline(time.Now().Add(60 * time.Second))
+			for {
+				l, err := rd.ReadString('\n')
+				if err != nil {
+					return err
+				}
+				if strings.HasPrefix(l, tag+" ") {
+					return nil
+				}
+			}
+		}
+		conn.SetReadDeadline(time.Now().Add(20 * time.Second))
+		rd.ReadString('\n')
+		conn.Write([]byte("G0 LOGIN user pass\r\n"))
+		if err := await("G0"); err != nil {
+			return fmt.Errorf("segmented test login: %v", err)
+		}
+		h0 := c.heap()
+		payload := append(append([]byte(fmt.Sprintf("g LOGIN {%d}\r\n", sg.size)), bytes.Repeat([]byte("y"), sg.size)...), []byte(" p\r\n")...)
+		conn.SetWriteDeadline(time.Now().Add(120 * time.Second))
+		broke := ""
+		for off := 0; off < len(payload) && broke == ""; off += sg.seg {
+			end := off + sg.seg
+			if end > len(payload) {
+				end = len(payload)
+			}
+			if _, err := conn.Write(payload[off:end]); err != nil {
+				broke = err.Error()
+			}
+			time.Sleep(30 * time.Microsecond) // let the server see a partial read
+		}
+		if broke == "" {
+			if err := await("g"); err != nil {
+				broke = "no completion: " + err.Error()
+			}
+		}
+		h1 := c.heap()
+		conn.Close()
+		switch {
+		case broke != "" && !c.alive():
+			res.Fail("CRASH "+canon, "the server process died: "+c.stderr.crashHead(), nil)
+			if err := restart(); err != nil {
+				return err
+			}
+		case broke != "":
+			res.Fail("COMPLETION "+canon, broke, nil)
+		case h0 >= 0 && h1 >= 0 && h1-h0 > 6<<20:
+			res.Fail("BLOAT "+canon, fmt.Sprintf("one command of %d KiB delivered in %d-byte segments made the live heap of the server grow from %d KiB to %d KiB (connection still open)", sg.size>>10, sg.seg, h0>>10, h1>>10), nil)
+		}
+		res.Notes = append(res.Notes, fmt.Sprintf("segmented %d/%d: heap %d KiB -> %d KiB", sg.seg, sg.size, h0>>10, h1>>10))
+		res.Nontrivial("segmented " + canon)
+	}
+
 	// ---------------------------------------------------------------- 1d. a server WITH a TLS configuration
 	tlsMode = true
 	if err := restart(); err != nil {
@@ -1047,6 +1129,40 @@ func runC11(ctx *common.Ctx) error {
 	}
 	for _, v := range valid { // the complete commands, followed by a NOOP
 		both("valid:complete", []byte(v+"z NOOP\r\n"), lined(e("a", ""), e("z", "OK")))
+	}
+
+	// ---------------------------------------------------------------- 2b. every prefix of a literal-free command, as a complete line
+	// "<prefix> CRLF" is a complete line: exactly one completion with the line's tag, WITHOUT further input, and the next
+	// command is answered (cuts inside month names, times, zones, quoted strings, sections, sequence sets ...)
+	prefixCmds := []string{
+		"a SEARCH ON 1-Jan-2020 SENTSINCE \"12-Mar-1999\" BEFORE 01-Dec-2001 OR SINCE 5-feb-2000 NOT SENTON \"31-OCT-2010\"",
+		"a UID SEARCH CHARSET UTF-8 SENTBEFORE 3-Apr-2001 LARGER 10",
+		"a APPEND INBOX (\\Seen) \" 7-Feb-2020 10:11:12 +0100\" ",
+		"a APPEND \"INBOX\" \"17-Aug-2021 23:59:59 -0930\" ",
+		"a STORE 1,2:* +FLAGS.SILENT (\\Seen foo)",
+		"a FETCH 1:*,3 (UID BODY.PEEK[1.2.HEADER.FIELDS.NOT (To From)]<0.10> RFC822.SIZE)",
+		"a STATUS \"in box\" (MESSAGES UNSEEN)",
+		"a ID (\"name\" \"x\" \"os\" NIL)",
+		"a LIST \"\" \"%\"",
+	}
+	nPrefix := ctx.Budget(5, len(prefixCmds))
+	for pi := 0; pi < len(prefixCmds); pi++ {
+		if pi >= 4 && (pi-4+int(ctx.Seed))%(len(prefixCmds)-4) >= nPrefix-4 && ctx.Tier != "thorough" {
+			continue // quick: the four date commands always, the others by rotation
+		}
+		v := prefixCmds[pi]
+		for cut := 0; cut <= len(v); cut++ {
+			p := v[:cut]
+			if strings.HasSuffix(p, "}") {
+				continue // would announce a literal
+			}
+			tag := "a"
+			if cut == 0 {
+				tag = ""
+			}
+			login := (cut+pi)%2 == 0
+			run(linesOf("prefix-line:"+strconv.Itoa(pi), login, []string{p + "\r\n", "z NOOP\r\n"}, []expect{e(tag, ""), e("z", "OK")}))
+		}
 	}
 
 	// ---------------------------------------------------------------- 3. random line streams (with the line oracle)
